@@ -43,7 +43,12 @@ class ScriptEntity(Entity):
 
     def handle_event(self, event):
         w = self.w
-        lab = event.context["metadata"].get("label")
+        md = event.context["metadata"]
+        # the entity is stateless; what it knows about an event lives in the event's own metadata
+        md["seen"] = md.get("seen", 0) + 1
+        lab = md.get("label")
+        if md["seen"] > 1:          # the same metadata reached a handler twice: make it visible
+            lab = lab + 100000 * (md["seen"] - 1)
         w.delivered.append((lab, self.now.nanoseconds, self.name))
         outs = [w.make(k) for k in w.children.get(lab, ())]
         for k in w.cancels.get(lab, ()):
@@ -118,7 +123,9 @@ class World:
 
 
 def run_program(prog: Program, *, form="list", control=False, step_ns=1, shuffle_push=None,
-                max_records=200000, early=0, prior=0):
+                max_records=200000, early=0, prior=0, inject=None):
+    """inject = random.Random: drive the run through the control surface in steps and, while paused,
+    create and schedule extra events (at or after the current instant, often tying with pending ones)."""
     """Run a program on the real engine under the probe.  Returns (labels, probe, world, error)."""
     probe = EngineProbe(max_records=max_records)
     err = None
@@ -126,15 +133,41 @@ def run_program(prog: Program, *, form="list", control=False, step_ns=1, shuffle
         w = World(prog, form=form, step_ns=step_ns, shuffle_push=shuffle_push)
         for _ in range(prior):          # unrelated earlier activity in this interpreter
             Event(time=Instant(0), event_type="noise", target=next(iter(w.ents.values())))
-        sim = w.build(control=control, early=early)
+        sim = w.build(control=control or inject is not None, early=early)
         try:
-            sim.run()
+            if inject is None:
+                sim.run()
+            else:
+                _run_with_injection(sim, w, inject)
         except ProbeOverflow:
             err = "overflow"
         except Exception as ex:  # real-code exception on a legal program
             err = f"{type(ex).__name__}: {ex}"
         probe.log.append(["end", sim._current_time.nanoseconds if hasattr(sim, "_current_time") else 0])
     return [d[0] for d in w.delivered], probe, w, err
+
+
+def _run_with_injection(sim, w, rng, max_rounds=60):
+    ctl = sim.control
+    ctl.pause()
+    sim.run()
+    names = sorted(w.ents)
+    extra = 0
+    for _ in range(max_rounds):
+        if not sim._is_running or not sim._is_paused:
+            break
+        if rng.random() < 0.7 and extra < 12:
+            now = sim._current_time.nanoseconds
+            pend = sorted({e.time.nanoseconds for e in sim._event_heap._heap if e.time.nanoseconds >= now})
+            for _ in range(rng.randint(1, 3)):
+                # tie with a pending event most of the time
+                t = rng.choice(pend) if pend and rng.random() < 0.7 else now + rng.randint(0, 2) * w.step
+                extra += 1
+                sim.schedule(Event(time=Instant(t), event_type=f"X{extra}", target=w.ents[rng.choice(names)],
+                                   daemon=rng.random() < 0.2, context={"metadata": {"label": 1000 + extra}}))
+        ctl.step(rng.randint(1, 3))
+    if sim._is_paused:
+        ctl.resume()
 
 
 def to_trace(tid, log, end_ns):
@@ -157,7 +190,7 @@ def to_trace(tid, log, end_ns):
         k = r[0]
         if k == "c":
             assert r[1] == len(evs) + 1
-            evs.append([rank[r[2]], bool(r[3])])
+            evs.append([rank[r[2]], bool(r[3]), bool(r[4]) if len(r) > 4 else bool(r[3])])
         elif k == "p":
             out.append(["p", r[1], rank.get(r[2], 0)])
         elif k == "i":
